@@ -331,6 +331,12 @@ struct coll_policy
         if (r.is_try && r.kind == 0 && !before.empty && r.size <= before.max_node && r.align <= before.max_align)
             t.fail("M-try", "try-null-with-free-node", "try_allocate_node returned null although its free list held a node");
         auto after = observe_for(w, s, r.size);
+        // a failed request may move the rest of the current block into the request's pool, nothing else: arena memory that
+        // disappears from capacity_left() without a node becoming available is capacity that no operation consumed (C18)
+        if (t.up_allocs == 0 && after.capleft < before.capleft && after.cap <= before.cap)
+            t.fail("M-counters", "capacity-lost-by-failed-alloc",
+                   fmt("capacity_left() went from %zu to %zu across a failed request although no node was added to the pool of %zu-byte nodes (%zu free before and after)",
+                       before.capleft, after.capleft, before.list_ns, before.cap));
         if (t.up_allocs == 0 && after.next_block != before.next_block)
             t.fail("M-counters", "next-capacity-changed-by-failed-alloc",
                    fmt("the next block size went from %zu to %zu across a request that failed and obtained no block", before.next_block, after.next_block));
